@@ -11,7 +11,7 @@ MC_NOTE = 'the real pacti code is executed; installed numpy/scipy/sympy/pyparsin
 CHECKS = {
  # id: (level, technique, level text, note, design_ref)
  'C01': e1('Contract pairs of six wirings (independent, cascade both call orders, shared input, feedback, two internal variables, cascade + external input) x vars_to_keep x simplify x tactic orders are composed for real and an exact search looks for a situation in which the result\'s assumptions hold, both components honour their contracts and an operand assumption or a result guarantee is broken.', 'DESIGN.md 4/C01'),
- 'C02': e1('Dividends built by composition (so that a quotient exists), relaxed / re-assumed variants and unrelated dividends x both divisor roles x additional_inputs x simplify x tactic orders; exact search for a situation breaking "divisor composed with quotient meets the dividend"; both branches of the assumption-implication guard observed.', 'DESIGN.md 4/C02'),
+ 'C02': e1('Dividends built by composition (so that a quotient exists), relaxed / re-assumed variants, unrelated dividends and divisors with sign-coupled output pairs (family coupled, 200 pairs) x both divisor roles x additional_inputs x simplify x tactic orders; exact search for a situation breaking "divisor composed with quotient meets the dividend"; both branches of the assumption-implication guard observed.', 'DESIGN.md 4/C02'),
  'C03': e1('Every ordered pair of small constraint lists / contracts of the grid (incl. derived Farkas consequences, duplicates, scalings, infeasible and far-from-origin sides, separated pairs, every pair of different interfaces) is put through refines, <=, contains_environment and contains_implementation and compared with an exact three-valued containment verdict.', 'DESIGN.md 4/C03'),
  'C04': e1('Every case of a stated finite grid (coefficients {-1,0,1,2}, <=2+3 terms, <=4 variables) is executed under every tactic configuration (each singleton, default, reversed, all 120 permutations on a sub-grid, simplify on/off, refine and relax) and the implication required by the property is decided exactly for each execution.', 'DESIGN.md 4/C04'),
  'C05': ('model_checking', 'stateless model checking of the real algebra code: deviation-bounded enumeration of every answer sequence of abstract primitives over every interface topology; Horn/truth-table entailment oracle; conformance replay of recorded polyhedral traces',
